@@ -322,6 +322,48 @@ func c10Changes(r *rt.Run, failAt bool) {
 			}
 		}
 	}
+	// GetDSC: the .dsc the upload lists, found next to the .changes and decoded;
+	// an upload without one (binary-only) is an error
+	if t.Bool(1, 3, "c10.getdsc") {
+		listed := ""
+		for _, f := range m.Files {
+			if strings.HasSuffix(f.Name, ".dsc") && listed == "" {
+				listed = f.Name
+			}
+		}
+		fs := simos.New(r)
+		fs.PutQuiet(p, []byte(doc))
+		dm := genDSC(t, "c10.getdsc.dsc", m.Source, []string{m.Source}, depOpts{MaxRels: 2})
+		if listed != "" {
+			fs.PutQuiet("/srv/incoming/"+listed, []byte(dm.render()))
+		}
+		// a decoy of another name in the same directory, and one of the same name elsewhere
+		decoy := genDSC(t, "c10.getdsc.decoy", "decoy-"+m.Source, []string{"decoy"}, depOpts{MaxRels: 1})
+		fs.PutQuiet("/srv/incoming/zz-unlisted.dsc", []byte(decoy.render()))
+		if listed != "" {
+			fs.PutQuiet("/"+listed, []byte(decoy.render()))
+			fs.PutQuiet("/srv/"+listed, []byte(decoy.render()))
+		}
+		simos.Install(fs)
+		var gd *control.DSC
+		var gerr error
+		task := r.Solo("GetDSC", func() { gd, gerr = got.GetDSC() })
+		simos.Install(nil)
+		if taskTrouble(r, "C10", "changes/GetDSC", task) {
+			return
+		}
+		r.Probe("GetDSC")
+		switch {
+		case listed == "" && gerr == nil:
+			d.bad("GetDSC()", "the upload lists no .dsc but GetDSC returned one (%q)", gd.Filename)
+		case listed != "" && (gerr != nil || gd == nil):
+			d.bad("GetDSC()", "the upload lists %s, which is there, but GetDSC failed: %v", listed, gerr)
+		case listed != "":
+			if gd.Source != dm.Source || gd.Filename != "/srv/incoming/"+listed || !verEq(gd.Version, dm.Version) {
+				d.bad("GetDSC()", "listed %s: got Filename=%q Source=%q Version=%v, the file there says Source=%q Version=%s", listed, gd.Filename, gd.Source, gd.Version, dm.Source, dm.Version.Text)
+			}
+		}
+	}
 }
 
 func c10Control(r *rt.Run, failAt bool) {
@@ -754,5 +796,5 @@ func init() {
 		},
 		Assumptions: []string{"the .deb control file kind of this property is exercised by C14's check", "two-part architecture names are compared on OS and CPU only"},
 	})
-	propProbes["C10"] = []string{"same-kind-decoded-by-concurrent-callers-first-thing-in-the-run", "relative-names-after-a-change-of-directory", "clearsigned-document", "several-document-kinds-in-one-run", "line-longer-than-4096-bytes", "caller-bufio-smaller-than-4096", "via-file-entry-point"}
+	propProbes["C10"] = []string{"GetDSC", "same-kind-decoded-by-concurrent-callers-first-thing-in-the-run", "relative-names-after-a-change-of-directory", "clearsigned-document", "several-document-kinds-in-one-run", "line-longer-than-4096-bytes", "caller-bufio-smaller-than-4096", "via-file-entry-point"}
 }
